@@ -131,18 +131,36 @@ fn bp(i: usize, default: u16) -> u16 {
     }
 }
 
+thread_local! {
+    /// How often user closures (map / map_with / fold functions of the template bodies) ran on this
+    /// thread: part of what "behaves exactly like its expansion" means — in check mode the
+    /// expansion calls none of them, so neither may the recursive parser.
+    static CALLS: std::cell::Cell<u64> = const { std::cell::Cell::new(0) };
+}
+#[inline]
+fn cnt<T>(x: T) -> T {
+    CALLS.with(|c| c.set(c.get() + 1));
+    x
+}
+fn calls_reset() {
+    CALLS.with(|c| c.set(0));
+}
+fn calls_get() -> u64 {
+    CALLS.with(|c| c.get())
+}
+
 fn pad<'a>(p: BX<'a>, pads: &[u8]) -> BX<'a> {
     let mut p = p;
     for k in pads {
         p = match k % 5 {
-            0 => p.map(|x| x).boxed(),
+            0 => p.map(|x| cnt(x)).boxed(),
             1 => p.then_ignore(empty()).boxed(),
             2 => empty().ignore_then(p).boxed(),
             3 => p.labelled("pad").boxed(),
             _ => p
                 .map_with(|x, e| {
                     let _ = e.span();
-                    x
+                    cnt(x)
                 })
                 .boxed(),
         };
@@ -152,36 +170,36 @@ fn pad<'a>(p: BX<'a>, pads: &[u8]) -> BX<'a> {
 
 fn body<'a>(t: Tmpl, pads: &[u8], me: BX<'a>, other: Option<BX<'a>>, second: bool) -> BX<'a> {
     let b: BX<'a> = match t {
-        Tmpl::Paren => me.delimited_by(just(b'('), just(b')')).map(|(d, m)| (d + 1, m)).or(just(b'x').to((0, 0))).boxed(),
+        Tmpl::Paren => me.delimited_by(just(b'('), just(b')')).map(|(d, m)| cnt((d + 1, m))).or(just(b'x').to((0, 0))).boxed(),
         Tmpl::List => me
             .separated_by(just(b','))
             .collect::<Vec<O>>()
             .delimited_by(just(b'['), just(b']'))
-            .map(|v: Vec<O>| (1 + v.iter().map(|x| x.0).sum::<u64>(), 1 + v.iter().map(|x| x.1).max().unwrap_or(0)))
+            .map(|v: Vec<O>| cnt((1 + v.iter().map(|x| x.0).sum::<u64>(), 1 + v.iter().map(|x| x.1).max().unwrap_or(0))))
             .or(just(b'a').to((1, 0)))
             .boxed(),
-        Tmpl::Chain => just(b'n').ignore_then(me).map(|(d, m)| (d + 1, m)).or(just(b'z').to((0, 0))).boxed(),
+        Tmpl::Chain => just(b'n').ignore_then(me).map(|(d, m)| cnt((d + 1, m))).or(just(b'z').to((0, 0))).boxed(),
         Tmpl::Mutual => {
             let o = other.expect("mutual needs the other parser");
             if !second {
-                o.delimited_by(just(b'('), just(b')')).map(|(d, m)| (d + 1, m)).or(just(b'a').to((0, 0))).boxed()
+                o.delimited_by(just(b'('), just(b')')).map(|(d, m)| cnt((d + 1, m))).or(just(b'a').to((0, 0))).boxed()
             } else {
-                o.delimited_by(just(b'['), just(b']')).map(|(d, m)| (d + 1, m)).or(just(b'b').to((0, 0))).boxed()
+                o.delimited_by(just(b'['), just(b']')).map(|(d, m)| cnt((d + 1, m))).or(just(b'b').to((0, 0))).boxed()
             }
         }
         Tmpl::PrattGroup => {
-            let atom = just(b'x').to((0u64, 0u64)).or(me.delimited_by(just(b'('), just(b')')).map(|(d, m)| (d + 1, m)));
+            let atom = just(b'x').to((0u64, 0u64)).or(me.delimited_by(just(b'('), just(b')')).map(|(d, m)| cnt((d + 1, m))));
             atom.pratt((
-                prefix(bp(0, 3), just(b'-'), |_, r: O, _| (r.0, r.1 + 1)),
-                infix(right(bp(1, 1)), just(b'^'), |l: O, _, r: O, _| (l.0.max(r.0), l.1 + r.1 + 1)),
-                infix(left(bp(2, 2)), just(b'+'), |l: O, _, r: O, _| (l.0.max(r.0), l.1 + r.1 + 1)),
+                prefix(bp(0, 3), just(b'-'), |_, r: O, _| cnt((r.0, r.1 + 1))),
+                infix(right(bp(1, 1)), just(b'^'), |l: O, _, r: O, _| cnt((l.0.max(r.0), l.1 + r.1 + 1))),
+                infix(left(bp(2, 2)), just(b'+'), |l: O, _, r: O, _| cnt((l.0.max(r.0), l.1 + r.1 + 1))),
             ))
             .boxed()
         }
         Tmpl::Brackets => choice((
-            me.clone().delimited_by(just(b'('), just(b')')).map(|(d, m)| (d + 1, m)),
-            me.clone().delimited_by(just(b'['), just(b']')).map(|(d, m)| (d + 1, m + 1)),
-            me.delimited_by(just(b'{'), just(b'}')).map(|(d, m)| (d + 1, m + 2)),
+            me.clone().delimited_by(just(b'('), just(b')')).map(|(d, m)| cnt((d + 1, m))),
+            me.clone().delimited_by(just(b'['), just(b']')).map(|(d, m)| cnt((d + 1, m + 1))),
+            me.delimited_by(just(b'{'), just(b'}')).map(|(d, m)| cnt((d + 1, m + 2))),
             just(b'x').to((0, 0)),
         ))
         .boxed(),
@@ -191,7 +209,7 @@ fn body<'a>(t: Tmpl, pads: &[u8], me: BX<'a>, other: Option<BX<'a>>, second: boo
 }
 
 fn lvl<'a>(p: BX<'a>, o: u8, c: u8, dm: u64) -> BX<'a> {
-    p.delimited_by(just(o), just(c)).map(move |(d, m): O| (d + 1, m + dm)).boxed()
+    p.delimited_by(just(o), just(c)).map(move |(d, m): O| cnt((d + 1, m + dm))).boxed()
 }
 
 /// Triple: which = 0 (A, uses b), 1 (B, uses c), 2 (C, uses a and b)
@@ -214,11 +232,11 @@ fn nested_q<'a>(pads: &[u8], q: BX<'a>, p: BX<'a>) -> BX<'a> {
 fn pratt_mix<'a>(pads: &[u8]) -> BX<'a> {
     let atom = pad(just(b'x').to((0u64, 0u64)).boxed(), pads);
     atom.pratt((
-        prefix(bp(0, 1), just(b'-'), |_, r: O, _| (r.0, r.1 + 1)),
-        prefix(bp(1, 2), just(b'~'), |_, r: O, _| (r.0, r.1 + 1)),
-        infix(left(bp(2, 1)), just(b'+'), |l: O, _, r: O, _| (l.0.max(r.0), l.1 + r.1 + 1)),
-        infix(right(bp(3, 1)), just(b'^'), |l: O, _, r: O, _| (l.0.max(r.0), l.1 + r.1 + 1)),
-        postfix(bp(4, 3), just(b'!'), |l: O, _, _| (l.0, l.1 + 1)),
+        prefix(bp(0, 1), just(b'-'), |_, r: O, _| cnt((r.0, r.1 + 1))),
+        prefix(bp(1, 2), just(b'~'), |_, r: O, _| cnt((r.0, r.1 + 1))),
+        infix(left(bp(2, 1)), just(b'+'), |l: O, _, r: O, _| cnt((l.0.max(r.0), l.1 + r.1 + 1))),
+        infix(right(bp(3, 1)), just(b'^'), |l: O, _, r: O, _| cnt((l.0.max(r.0), l.1 + r.1 + 1))),
+        postfix(bp(4, 3), just(b'!'), |l: O, _, _| cnt((l.0, l.1 + 1))),
     ))
     .boxed()
 }
@@ -226,9 +244,9 @@ fn pratt_mix<'a>(pads: &[u8]) -> BX<'a> {
 fn pratt_chain<'a>(pads: &[u8]) -> BX<'a> {
     let atom = pad(just(b'x').to((0u64, 0u64)).boxed(), pads);
     atom.pratt((
-        prefix(bp(0, 2), just(b'-'), |_, r: O, _| (r.0, r.1 + 1)),
-        infix(right(bp(1, 1)), just(b'^'), |l: O, _, r: O, _| (l.0.max(r.0), l.1 + r.1 + 1)),
-        postfix(bp(2, 3), just(b'!'), |l: O, _, _| (l.0, l.1 + 1)),
+        prefix(bp(0, 2), just(b'-'), |_, r: O, _| cnt((r.0, r.1 + 1))),
+        infix(right(bp(1, 1)), just(b'^'), |l: O, _, r: O, _| cnt((l.0.max(r.0), l.1 + r.1 + 1))),
+        postfix(bp(2, 3), just(b'!'), |l: O, _, _| cnt((l.0, l.1 + 1))),
     ))
     .boxed()
 }
@@ -623,7 +641,12 @@ enum H<'a> {
 }
 
 impl<'a> H<'a> {
-    fn run(&self, input: &'a [u8], check: bool) -> Outcome {
+    fn run(&self, input: &'a [u8], check: bool) -> (Outcome, u64) {
+        calls_reset();
+        let o = self.run_inner(input, check);
+        (o, calls_get())
+    }
+    fn run_inner(&self, input: &'a [u8], check: bool) -> Outcome {
         let r = catch_unwind(AssertUnwindSafe(|| match (self, check) {
             (H::Dir(p), false) => norm(p.parse(input)),
             (H::Ind(p), false) => norm(p.parse(input)),
@@ -655,7 +678,8 @@ impl<'a> H<'a> {
 
 #[derive(Clone, Debug, PartialEq, Serialize, Deserialize)]
 pub enum OpResult {
-    Parsed(Outcome),
+    /// outcome + number of user-closure calls during the operation
+    Parsed(Outcome, u64),
     /// (panicked, message)
     DefineAgain(bool, String),
     Skipped,
@@ -682,8 +706,8 @@ fn run_history<'a>(c: &LifeCase, input: &'a [u8]) -> History {
     let early = |h: &RI<'a>| -> Option<Outcome> {
         match c.premature {
             0 => None,
-            1 => Some(H::Ind(h.clone()).run(input, false)),
-            _ => Some(H::Bx(h.clone().boxed()).run(input, false)),
+            1 => Some(H::Ind(h.clone()).run(input, false).0),
+            _ => Some(H::Bx(h.clone().boxed()).run(input, false).0),
         }
     };
     match (c.tmpl, c.form) {
@@ -803,8 +827,14 @@ fn run_history<'a>(c: &LifeCase, input: &'a [u8]) -> History {
                 pool.remove(i % n);
                 OpResult::Done
             }
-            Op::Parse(i) if n > 0 => OpResult::Parsed(pool[i % n].run(input, false)),
-            Op::Check(i) if n > 0 => OpResult::Parsed(pool[i % n].run(input, true)),
+            Op::Parse(i) if n > 0 => {
+                let (o, k) = pool[i % n].run(input, false);
+                OpResult::Parsed(o, k)
+            }
+            Op::Check(i) if n > 0 => {
+                let (o, k) = pool[i % n].run(input, true);
+                OpResult::Parsed(o, k)
+            }
             Op::DefineAgain(i) if n > 0 => {
                 // pick an Indirect handle if there is one
                 let k = (0..n).map(|d| (i + d) % n).find(|k| matches!(pool[*k], H::Ind(_)));
@@ -833,7 +863,12 @@ fn run_history<'a>(c: &LifeCase, input: &'a [u8]) -> History {
 }
 
 /// Reference: the unrolling, on the calling (big-stack) thread.
-fn run_unrolled(c: &LifeCase, input: &[u8], check: bool) -> Outcome {
+fn run_unrolled(c: &LifeCase, input: &[u8], check: bool) -> (Outcome, u64) {
+    calls_reset();
+    let o = run_unrolled_inner(c, input, check);
+    (o, calls_get())
+}
+fn run_unrolled_inner(c: &LifeCase, input: &[u8], check: bool) -> Outcome {
     let openers = openers(c.tmpl);
     let k = input.iter().filter(|b| openers.contains(b)).count() + 2;
     set_bp(c.shape_seed);
@@ -899,13 +934,13 @@ pub fn exec_case(c: &LifeCase) -> CaseRun {
         digest = fold(digest, o.digest());
     }
     let use_unroll = n_open <= c.unroll_max;
-    let mut ref_parse: Option<Outcome> = None;
-    let mut ref_check: Option<Outcome> = None;
+    let mut ref_parse: Option<(Outcome, u64)> = None;
+    let mut ref_check: Option<(Outcome, u64)> = None;
     let mut used_gen = false;
     let mut disagree = false;
     for (op, res) in c.ops.iter().zip(results.iter()) {
         match (op, res) {
-            (Op::Parse(_) | Op::Check(_), OpResult::Parsed(o)) => {
+            (Op::Parse(_) | Op::Check(_), OpResult::Parsed(o, calls)) => {
                 let check = matches!(op, Op::Check(_));
                 digest = fold(digest, o.digest());
                 if use_unroll {
@@ -913,9 +948,12 @@ pub fn exec_case(c: &LifeCase) -> CaseRun {
                     if slot.is_none() {
                         *slot = Some(run_unrolled(c, &input, check));
                     }
-                    let r = slot.as_ref().unwrap();
+                    let (r, rcalls) = slot.as_ref().unwrap();
                     if r != o && failure.is_none() {
                         failure = Some(("differs-from-unrolling".into(), format!("op {:?}: unrolled={} recursive={}", op, r.brief(), o.brief())));
+                    }
+                    if rcalls != calls && failure.is_none() {
+                        failure = Some(("differs-from-unrolling(user-closure calls)".into(), format!("op {:?}: the expansion called the grammar's map/fold closures {} times, the recursive parser {} times (same outcome {})", op, rcalls, calls, o.brief())));
                     }
                     // calibration of the generator expectation against the unrolling (never a violation)
                     if rejection_is_certain(c) {
@@ -985,7 +1023,7 @@ fn calibrated(t: Tmpl) -> bool {
                             continue;
                         }
                         let (input, expect) = make_input(&c);
-                        let r = run_unrolled(&c, &input, false);
+                        let r = run_unrolled(&c, &input, false).0;
                         let agrees = match (&expect, &r) {
                             (Some((a, b)), Outcome::Finished { out: Some(Val::Seq(v)), errs }) => errs.is_empty() && v == &vec![Val::Num(*a), Val::Num(*b)],
                             (None, Outcome::Finished { out: None, errs }) => !errs.is_empty(),
@@ -1111,7 +1149,7 @@ impl Engine for LifeSim {
         let run = exec_case(&c);
         acc.inc("evaluations.cases");
         acc.add("evaluations.lifecycle_ops", c.ops.len() as u64);
-        acc.add("evaluations.parses", run.results.iter().filter(|r| matches!(r, OpResult::Parsed(_))).count() as u64);
+        acc.add("evaluations.parses", run.results.iter().filter(|r| matches!(r, OpResult::Parsed(..))).count() as u64);
         acc.inc(&format!("template.{:?}", c.tmpl));
         acc.inc(&format!("form.{:?}", c.form));
         acc.inc(&format!("stack_kib.{}", c.stack_kib));
@@ -1146,7 +1184,7 @@ impl Engine for LifeSim {
                 acc.inc("fired.premature_parse_panicked(used before being defined; characterised only)");
             }
         }
-        acc.add("sim_steps.lifecycle_ops_plus_input_tokens", c.ops.len() as u64 + (2 * c.depth as u64 + 1) * run.results.iter().filter(|r| matches!(r, OpResult::Parsed(_))).count() as u64);
+        acc.add("sim_steps.lifecycle_ops_plus_input_tokens", c.ops.len() as u64 + (2 * c.depth as u64 + 1) * run.results.iter().filter(|r| matches!(r, OpResult::Parsed(..))).count() as u64);
         let pos_parse = c.ops.iter().position(|o| matches!(o, Op::Parse(_) | Op::Check(_))).unwrap_or(0);
         let lifecycle_nontrivial = c.ops.len() >= 3 && c.ops[..c.ops.len() - 1].iter().any(|o| matches!(o, Op::Drop(_) | Op::DefineAgain(_))) && pos_parse < c.ops.len();
         let depth_nontrivial = c.depth >= 1000 && c.stack_kib <= 256;
@@ -1158,7 +1196,7 @@ impl Engine for LifeSim {
             acc.inc("cases.deep_on_small_stack(depth>=1000,stack<=256KiB)");
         }
         acc.distinct("cases", d);
-        acc.sample("samples", idx, 6, || json!({"case": idx, "spec": c, "results": run.results.iter().map(|r| match r { OpResult::Parsed(o) => o.brief(), x => format!("{:?}", x) }).collect::<Vec<_>>() }));
+        acc.sample("samples", idx, 6, || json!({"case": idx, "spec": c, "results": run.results.iter().map(|r| match r { OpResult::Parsed(o, k) => format!("{} closures={}", o.brief(), k), x => format!("{:?}", x) }).collect::<Vec<_>>() }));
         if let Some((class, detail)) = run.failure {
             acc.violations.push(Violation {
                 property: "C12".into(),
